@@ -92,7 +92,7 @@ def skeleton_check(workdir, decisions=(), sites=False, order=False):
            "From FB.Model Require Import Skeleton.\n"
            "Definition nl := String (Ascii.ascii_of_nat 10) \"\".\n"
            "Eval vm_compute in (String.concat nl (decision_mismatches [%s])).\n"
-           "Eval vm_compute in (String.concat nl (map (fun s => match s with (f, p, _, _) => (f ++ \" \" ++ p)%string end) site_mismatches)).\n"
+           "Eval vm_compute in (String.concat nl (map (fun s => match s with (f, p, _, _) => (f ++ \" \" ++ p)%%string end) site_mismatches)).\n"
            "Eval vm_compute in order_ok.\n" % "; ".join(coq_str(d) for d in decisions))
     rc, out = coq_eval(workdir, "Skel", txt, timeout=300)
     if rc != 0:
